@@ -40,15 +40,24 @@ def parseOracle (s : String) : Option OTable :=
       | _, _ => none
     | _ => none
 
-def OTable.toOracle (t : OTable) : Oracle := fun f k d =>
-  match t.find? (fun e => e.1 == (f, k, d)) with
+/-- a later assignment of the same (flow, key, direction) overrides an earlier one -/
+def OTable.toOracle (t : OTable) : Oracle :=
+  let r := t.reverse
+  fun f k d =>
+  match r.find? (fun e => e.1 == (f, k, d)) with
   | some e => e.2
   | none => {}
 
+/-- update the LAST declared flow of that name -/
+def updLast (name : String) (g : FlowRep → FlowRep) : List FlowDecl → Option (List FlowDecl)
+  | [] => none
+  | d :: ds =>
+    match updLast name g ds with
+    | some ds' => some (d :: ds')
+    | none => if d.rep.name == name then some ({ d with rep := g d.rep } :: ds) else none
+
 def updFlow (c : Cfg) (name : String) (g : FlowRep → FlowRep) : Option Cfg :=
-  if c.flows.any (·.rep.name == name) then
-    some { c with flows := c.flows.map fun d => if d.rep.name == name then { d with rep := g d.rep } else d }
-  else none
+  (updLast name g c.flows).map fun fl => { c with flows := fl }
 
 /-- configuration op lines; `none` = not a configuration line or unparsable -/
 def cfgStep (c : Cfg) (ws : List String) : Option Cfg :=
@@ -73,7 +82,7 @@ def cfgStep (c : Cfg) (ws : List String) : Option Cfg :=
       | some "wild" => some true
       | _ => none
     match conc, wild with
-    | some cc, some w => some { c with quotas := c.quotas ++ [⟨pctDec id, cc, w⟩] }
+    | some cc, some w => some { c with quotas := c.quotas ++ [⟨pctDec id, (pctDec id).replace "." "", cc, w⟩] }
     | _, _ => none
   | _ => none
 
